@@ -40,6 +40,17 @@ Inductive pkind :=
 | PMixLen         (* MixFractions shorter than ChannelIndices *)
 | PNil.           (* nil dereference: ls.devices[0] missing (only the tree before the fix reads it) *)
 
+(* one tick of the reader goroutine: what it sent on buffersChan, what it released *)
+Record bufmsg := { bm_data : list (list Z); bm_stamp : Z; bm_drop : bool }.
+
+Inductive tick_out :=
+| TSmall                 (* "lancero read too small": nothing released, nothing sent *)
+| TGeom                  (* geometry mismatch: the whole read released, nothing sent *)
+| TBuf (m : bufmsg)      (* a BuffersChanType message *)
+| TPanic (k : pkind).
+
+Record tick_res := { t_pend : list Z; t_rels : list Z; t_out : tick_out }.
+
 Record block := { b_first : Z; b_dropped : Z; b_data : list (list Z); b_ext : list Z }.
 
 Inductive op :=
